@@ -200,11 +200,16 @@ def write_evidence(ctx, total, disch, nknown, nviol):
         'obligations': total,
         'discharged': disch,
         'known_findings': nknown,
-        'evaluations': max(total, 1),
+        'evaluations': max(total, 1) + int(
+            ctx.analysed.get('paths_examined', 0) or 0) + int(
+            ctx.transitions or 0),
         'distinct_nontrivial': distinct,
-        'rule': ('one obligation per (rule, function, construct) instance '
-                 'found in the source; distinct = distinct obligation keys; '
-                 'non-trivial = the obligation inspected at least one '
+        'rule': ('evaluations = obligations decided + control paths of '
+                 'the analysed functions handed to the rules + abstract '
+                 'state-machine transitions compared, all counted on this '
+                 'run; one obligation per (rule, function, construct) '
+                 'instance found in the source; distinct_nontrivial = '
+                 'distinct obligation keys whose rule inspected at least one '
                  'construct of the current tree'),
         'samples': samples,
         'analysed': analysed,
